@@ -30,6 +30,10 @@ func c09Gen(r *driver.Rand, thorough bool) *driver.Plan {
 		n = driver.Pick(r, 33, 64, 65, 129, 257)
 		par = min(par, 4)
 	}
+	if r.Chance(1, 60) {
+		par = driver.Pick(r, 65, 129, 257)
+		n = r.Intn(7)
+	}
 	p := c09Base(stage, par, n)
 	p.Cap = genCap(r)
 	p.Fn = r.Intn(60)
@@ -37,7 +41,7 @@ func c09Gen(r *driver.Rand, thorough bool) *driver.Plan {
 	if (stage == "fork.Map" || stage == "fork.FMap") && r.Chance(1, 2) {
 		p.Mode = driver.Pick(r, "try", "try", "lift")
 		if r.Chance(1, 3) {
-			p.SetX("err_kind", 1+r.Intn(3))
+			p.SetX("err_kind", 1+r.Intn(5))
 		}
 		for i := 0; i < n; i++ {
 			if r.Chance(1, 3) {
